@@ -9,7 +9,9 @@ tokens: X<τ> set_expiry (τ = N | int) · A<T|F><v> reply dispatched now · S<d
 S<delay>:O<dur> peer message readable `delay` ticks from now · V conn.serve(0) · C<c> add_callback ·
 r ready · e error · x expired · v value · w wait · T<d> tick · Y<τ> sync_request with configured
 timeout τ (fresh result) · Z<τ> timed(proxy, τ)(...) (fresh result) · Q<τ> async_request(timeout=τ) ·
-W<τ> make a `timed(proxy, τ)` wrapper (no request yet) · K call that wrapper (fresh result).
+W<τ> make a `timed(proxy, τ)` wrapper (no request yet) · K call that wrapper (fresh result) ·
+D the application drops its own reference to the result (not part of the model's state: the identity on `World`;
+the connection's registry entry `live` is what keeps the request answerable).
 Output: one `<obs>@<now>` per token, then the state.
 -/
 namespace Rpyc.Drv
@@ -22,6 +24,7 @@ inductive AOp where
   | areq (τ : Option Int)
   | mkTimed (τ : Option Int)
   | callTimed
+  | dropRef
 
 def parseTau (cs : List Char) : Option (Option Int) :=
   match cs with
@@ -48,6 +51,7 @@ def parseAOp (tok : String) : Option AOp :=
   | 'Q' :: cs => (parseTau cs).map .areq
   | 'W' :: cs => (parseTau cs).map .mkTimed
   | ['K'] => some .callTimed
+  | ['D'] => some .dropRef
   | 'A' :: b :: cs => match parseBoolC b, parseNatChars cs with
     | some e, some v => some (.ev (.arrive e v))
     | _, _ => none
@@ -105,6 +109,7 @@ def applyAOp (w : World) (tw : Option Timed) : AOp → Option (World × Option T
   | .timed τ => some (timedCall w τ, tw, .unit)
   | .areq τ => some (asyncRequest w τ, tw, .unit)
   | .mkTimed τ => some (w, some (Timed.make τ), .unit)
+  | .dropRef => some (w, tw, .unit)
   | .callTimed => match tw with
     | some t => some (Timed.call w t, tw, .unit)
     | none => none
